@@ -99,6 +99,9 @@ let polls_after_deadline = ref 0
    stop has been reported *)
 let xstopped : BinNums.coq_N option ref = ref None
 let xseen = ref false
+(* the blocking waitpid (counted over the scenario) that a signal handler of the caller interrupts; 0 = none *)
+let intr_at = ref 0
+let blocking_waits = ref 0
 (* poll reported stdin writable, and the library polled again (or returned) without having written to it *)
 let pending_in = ref false
 let starved = ref 0
@@ -254,7 +257,11 @@ let serve_pcall (c : PopenSM.pcall) : PopenSM.presult option =
     let dur = n_of_int ((next_choice () mod 50) * 1000) in
     let over = n_of_int (let k = next_choice () in if k mod 4 = 0 then (k mod 3000) * 1000 else 0) in
     let t_before = int_of_n w.PopenSM.pnow in
-    match JobCtl.xserve { JobCtl.xbase = w; JobCtl.xstopped = !xstopped; JobCtl.xseen = !xseen } (JobCtl.XBase c) dur over with
+    let xw0 = { JobCtl.xbase = w; JobCtl.xstopped = !xstopped; JobCtl.xseen = !xseen } in
+    let interrupted = (match c with
+        | PopenSM.PWaitpid false -> incr blocking_waits; !intr_at > 0 && !blocking_waits = !intr_at
+        | _ -> false) in
+    match (if interrupted then JobCtl.xinterrupt xw0 dur else JobCtl.xserve xw0 (JobCtl.XBase c) dur over) with
     | JobCtl.XNever -> verdict := "never"; None
     | JobCtl.XRes (xw, r) ->
       let w' = xw.JobCtl.xbase in
@@ -314,8 +321,9 @@ let () =
        | ["choices"; c] ->
          choices := if c = "-" then [] else Stdlib.List.map (fun x -> nat_of_int (int_of_string x)) (String.split_on_char ',' c);
          reply "ok"
-       | ["popen"; ex; raw; reap; dies] ->
-         xstopped := None; xseen := false;
+       | "popen" :: ex :: raw :: reap :: dies :: more ->
+         xstopped := None; xseen := false; blocking_waits := 0;
+         intr_at := (match more with [k] -> int_of_string k | _ -> 0);
          pw := Some { PopenSM.pr = PopenSM.PAlive;
                       PopenSM.exit_at = (if ex = "never" then None else Some (n_of_int (int_of_string ex), n_of_int (int_of_string raw)));
                       PopenSM.reap_at = (if reap = "never" then None else Some (n_of_int (int_of_string reap)));
